@@ -14,6 +14,7 @@ package main
 //   ptag<X> <tag>*                                  one per keep-tag list
 //   latest <sec> <nsec>                             real findLatestTimestamp
 //   win<X> <i> <sec> <nsec>                         window start latest − duration (oracle: Go's time package)
+//   winraw<X> <i> <sec> <nsec>                      hours > 2562047 only: the overflowed value (to name the failure)
 //   keep<X> <idx>*   remove<X> <idx>*   reason<X> <idx> <hex reason>*   ctr<X> <idx> <6 counters>
 //   res panic|refuse|error <msg>
 
@@ -278,6 +279,12 @@ func (h *H) c22RecPolicy(p data.ExpirePolicy, latest time.Time, haveLatest bool,
 			}
 			t = t.Add(-time.Duration(hours) * time.Hour)
 			h.Rec("win"+x, Itoa(i), I64(t.Unix()), Itoa(t.Nanosecond()))
+			if d.Hours > maxHours {
+				// only used to NAME a failure: what `time.Hour * time.Duration(-hours)` (the expression
+				// of the unfixed source) gives when it overflows
+				raw := latest.AddDate(-d.Years, -d.Months, -d.Days).Add(time.Hour * time.Duration(-d.Hours))
+				h.Rec("winraw"+x, Itoa(i), I64(raw.Unix()), Itoa(raw.Nanosecond()))
+			}
 		}
 	}
 	for _, l := range p.Tags {
